@@ -167,6 +167,9 @@ def iterator_loops(fn):
             p = c.get("path") or ""
             if not (p.endswith("Iterator::next") or p.endswith("DoubleEndedIterator::next_back")):
                 continue
+            inner = cfg.innermost_loop_of(fn, bb)
+            if inner is None or inner[0] != head:
+                continue
             # the Some/None switch on the result
             sws = switches_on_local(fn, t["dest"]["l"]) if "p" not in t["dest"] else []
             sws = [s for s in sws if s["bb"] in body]
